@@ -217,7 +217,7 @@ CLAIMED = {
         "discarded (see C10).",
         "DESIGN.md section 6 / C11"),
     "C12": (
-        "Coq proofs at three levels - keys (generic in the schema; thirteen key tables translated from the source on every run with five obligations), value text (quantities, equations), objects (writer / reader models of all nine kinds of objects with round-trip theorems) - + correspondence: modelled writers and readers against the code's dictionary for dictionary, and physical content through dict / JSON text / files / multi-file layouts / aliases / omitted defaults",
+        "Coq proofs at four levels - keys (generic in the schema; thirteen key tables translated from the source on every run with five obligations), value text (quantities, equations), objects (writer / reader models of all nine kinds of objects with round-trip theorems), files (path helpers over a model of pathlib, the two files of a saved trajectory, text arrays) - + correspondence: modelled writers and readers against the code's dictionary for dictionary, and physical content through dict / JSON text / files / multi-file layouts / aliases / omitted defaults",
         "Theorems (Props/C12.v, closed under the global context): for any schema (list of synonym lists) and any dictionary, renaming a key "
         "into another key that is a synonym of exactly the same fields changes neither acceptance nor the value read for any field; the "
         "key tables of the thirteen readers (twelve *_from_dict and load_rdtrajectory) are pairwise disjoint, every key emitted by a writer is the primary key of a field of its "
@@ -232,11 +232,11 @@ CLAIMED = {
         "environments and units systems; every coefficient, density and rate constant bit-identical in value and equivalent in unit; every "
         "stoichiometric coefficient and both orders; the rebuilt network valid again), and the modelled writers and readers are compared "
         "dictionary for dictionary with the code's (written form, alias variants at both levels, omitted defaults, inherit / default "
-        "units). Rejected dictionaries (a map of the wrong length, a zero size) are rejected by the modelled reader too. Outside the object-level model (decided by the correspondence below only): references to other files and multi-file layouts, external array files (.npy, text), seeds drawn when none is given, the list form of an equation, bare numbers for quantities: that the objects rebuilt by their readers carry the original's physical content is established by the "
+        "units). Rejected dictionaries (a map of the wrong length, a zero size) are rejected by the modelled reader too. Files (Model/Files.v, Props/C12.v): filepath.py (extension test with Python's slicing, append / remove, get_base_path, get_path_with_base, get_last_element over a model of the pathlib calls they make - posixpath.splitroot, parsing into parts, str, name, parent, absolute, join), the two names save_rdtrajectory derives and text_array_rw.py are modelled; theorems: for every path and absolute working directory load_rdtrajectory opens for the data exactly the file save_rdtrajectory(separate_data=True) wrote, the reference in the JSON file is a bare file name, both names are one stem with two endings, have_extension is 'is a suffix', references without base / absolute references are used as they are, integers saved as a text array load as the same integers; compared with the code on random paths (runs of slashes, '.', '..', blanks, non-ASCII, empty, extensions longer than the path), random texts and real save / load runs under random names in scratch directories (files that appear, reference written, data loaded from another working directory). Outside the model (decided by the correspondence below only): the content of .npy files, which reference is resolved against which file in multi-file and nested layouts, seeds drawn when none is given, the list form of an equation, bare numbers for quantities: that the objects rebuilt by their readers carry the original's physical content is established by the "
         "correspondence: random networks, spaces (grid; graph with per-node and per-edge units), systems, scripts and Euler trajectories "
         "with independent units at every level go through to_dict -> from_dict, JSON text, save/load in a scratch directory, to_dict twice "
         "(stability), up to 6 of the alias substitution sites per object (~5000 sites per quick run), a multi-file system layout "
-        "(sub-directory, .npy state, text chemostats, relative and absolute paths) and a dictionary with every documented default "
+        "(sub-directory, .npy state, text chemostats, relative and absolute paths), a nested script layout (script -> system file in another directory -> its own network / space / state / chemostats files -> the grid's environments file) and a dictionary with every documented default "
         "omitted; the physical content (all quantities in SI, labels, stoichiometry, geometry, flags, unit systems, sampling parameters, "
         "processing mode, seed, times, data) of each result is compared with the original's in Coq.",
         "Trusted: Coq kernel + VM; harness/fingerprint.py (which fields constitute the physical content: bases of a unit with a zero "
